@@ -13,12 +13,11 @@ Proof. vm_compute. reflexivity. Qed.
 Lemma gen_sql_default_optimizes : sql_defaults gen_facts = (true, true, true).
 Proof. reflexivity. Qed.
 
-(** collect() renders quoted and compact *)
-Lemma gen_collect_rendering : collect_quote gen_facts = true /\ collect_pretty gen_facts = false.
-Proof. split; reflexivity. Qed.
-
-Lemma gen_hash_format : hash_prefix = "t"%string /\ hash_len = 9%nat.
-Proof. split; reflexivity. Qed.
+(** the CTE names the re-hashing draws are plain identifiers (a letter, then the crc32 digits): printing them
+    without quotes is covered by [unquoted_ok]; at least 4 characters are kept *)
+Lemma gen_hash_names_plain :
+  ident_shape (hash_prefix ++ "0123456789") = true /\ (4 <= hash_len)%nat.
+Proof. split; [vm_compute; reflexivity | vm_compute; repeat constructor]. Qed.
 
 (** * the property at full strength *)
 Section Property.
